@@ -8,6 +8,10 @@ if [ "$1" = "-e" ]; then
   sed -i -E "$2" "$D/$3" || exit 3
   if diff -q "$D/$3" "/repo/$3" >/dev/null; then echo "MUTATION DID NOT CHANGE FILE"; rm -rf "$D"; exit 3; fi
   shift 3
+elif [ "$1" = "-p" ]; then
+  perl -0pi -e "$2" "$D/$3" || exit 3
+  if diff -q "$D/$3" "/repo/$3" >/dev/null; then echo "MUTATION DID NOT CHANGE FILE"; rm -rf "$D"; exit 3; fi
+  shift 3
 else
   (cd "$D" && patch -p1 -s < "$1") || { echo "PATCH FAILED"; rm -rf "$D"; exit 3; }
   shift 1
